@@ -509,7 +509,7 @@ type HashContext = {
 
 type Hash256Context = {
   writer: Hash256Writer;
-  active: Map<Runtype, number>;
+  active: Map<string, number>;
 };
 
 export interface Runtype {
@@ -2422,7 +2422,9 @@ export abstract class BaseRefRuntype extends BaseRuntype {
       to.hash256(ctx);
       return;
     }
-    const activeId = ctx.active.get(to);
+    // keyed by the name of the type being expanded: two names whose equal definitions were emitted as one shared
+    // object are still two types (a doc comment on one of them makes them two objects)
+    const activeId = ctx.active.get(this.refName);
     if (activeId != null) {
       ctx.writer.updateTag("cycleRef");
       ctx.writer.updateNumber(activeId);
@@ -2432,9 +2434,9 @@ export abstract class BaseRefRuntype extends BaseRuntype {
     // a back reference names its target by the stream offset at which the target's encoding starts: expansions that
     // are never referred back to leave no trace, so a counter of expansions would not say which enclosing type is meant
     const id = ctx.writer.position();
-    ctx.active.set(to, id);
+    ctx.active.set(this.refName, id);
     to.hash256(ctx);
-    ctx.active.delete(to);
+    ctx.active.delete(this.refName);
   }
   validate(ctx: ValidateContext, input: any): boolean {
     const to = this.getNamedRuntypes()[this.refName];
